@@ -75,6 +75,15 @@ Qed.
 Lemma type_of_canonical url : canonical_url url -> default_prefix ++ type_of url = url.
 Proof. intros (name & -> & H). rewrite type_of_prefixed by exact H. reflexivity. Qed.
 
+Lemma type_url_restoration_proof url :
+  type_name url = type_of url /\ ~ In slash (type_of url) /\
+  type_of (default_prefix ++ type_of url) = type_of url /\
+  (canonical_url url -> default_prefix ++ type_of url = url).
+Proof.
+  split; [apply type_name_spec|]. split; [apply type_of_noslash|].
+  split; [apply type_of_prefixed, type_of_noslash|apply type_of_canonical].
+Qed.
+
 (* ---- int32 / uint32 casts ---- *)
 Lemma to_i32_to_u32 z : int32 z -> to_i32 (to_u32 z) = z.
 Proof.
